@@ -7,6 +7,7 @@ import (
 	"errors"
 	"fmt"
 	"sort"
+	"strconv"
 	"strings"
 
 	"golang.org/x/mod/sumdb/tlog"
@@ -577,6 +578,31 @@ func pathCases(r *fw.Run) {
 			r.Violation("parse:"+p, fmt.Sprintf("ParseTilePath(%q) accepted as %+v whose canonical path is %q", p, t, refPath(t)), caseT{Kind: "path", Path: p})
 		}
 	})
+	// byte sweep: every byte value substituted at, and inserted before, every position of canonical paths
+	bases := []string{"tile/8/0/001", "tile/2/1/x001/234.p/3", "tile/1/data/x123/x456/789", "tile/30/63/000.p/1", "tile/8/0/x001/000"}
+	check := func(p string) {
+		l.States++
+		l.Execs++
+		t, err := tlog.ParseTilePath(p)
+		if err != nil {
+			l.Outcomes["path:refused"]++
+			return
+		}
+		l.Outcomes["path:accepted"]++
+		if refPath(t) != p || t.H < 1 || t.H > 30 || t.L < -1 || t.W < 1 || t.W > 1<<uint(t.H) || t.N < 0 {
+			r.Violation("parse:"+strconv.QuoteToASCII(p), fmt.Sprintf("ParseTilePath(%q) accepted as %+v whose canonical path is %q", p, t, refPath(t)), caseT{Kind: "path", Path: p})
+		}
+	}
+	for _, b := range bases {
+		for i := 0; i <= len(b); i++ {
+			for c := 0; c < 256; c++ {
+				check(b[:i] + string([]byte{byte(c)}) + b[i:])
+				if i < len(b) {
+					check(b[:i] + string([]byte{byte(c)}) + b[i+1:])
+				}
+			}
+		}
+	}
 }
 
 func Run(r *fw.Run) {
